@@ -173,6 +173,93 @@ fn regen(prop: &str, input: &Path, out: &Path) {
             sink.begin(&json!({"prop": prop, "fen": b.as_fen()}));
             sink.emit(&query_one(&ctx, &b, prop));
         }
+        Some(kind @ ("fen" | "fenparse" | "san" | "uci" | "parse" | "rawval" | "sym" | "cap" | "hashpair" | "magic")) => {
+            // stateless events: the same input handed to the current code again
+            let text_of = |v: &Value| -> String {
+                v.as_array().map(|a| a.iter().filter_map(|c| char::from_u32(c.as_u64().unwrap_or(0) as u32)).collect()).unwrap_or_default()
+            };
+            let board_of = |v: &Value| -> owlchess::Board {
+                owlchess::Board::try_from(proj::raw_from_json(v)).expect("replay position must be valid")
+            };
+            sink.begin(&json!({"prop": prop, "replay": kind}));
+            let mut rng = StdRng::seed_from_u64(1);
+            match kind {
+                "fen" => {
+                    if ev["kind"] == "board" {
+                        sink.emit(&notation::fen_board_event(&board_of(&ev["pos"])));
+                    } else {
+                        sink.emit(&notation::fen_raw_event(&proj::raw_from_json(&ev["pos"])));
+                    }
+                }
+                "fenparse" => sink.emit(&notation::fen_parse_event(&text_of(&ev["text"]))),
+                "san" => sink.emit(&notation::san_event(&mut rng, &board_of(&ev["pos"]))),
+                "uci" => sink.emit(&notation::uci_event(&board_of(&ev["pos"]))),
+                "parse" => {
+                    let b = if ev["pos"].is_null() { owlchess::Board::initial() } else { board_of(&ev["pos"]) };
+                    let mut e = notation::parse_event(ev["what"].as_str().unwrap(), &text_of(&ev["text"]), &b);
+                    if !ev["pos"].is_null() {
+                        e["pos"] = ev["pos"].clone();
+                    }
+                    sink.emit(&e);
+                }
+                "rawval" => sink.emit(&misc::rawval_event(&proj::raw_from_json(&ev["raw"]))),
+                "sym" => {
+                    for e in misc::sym_events(&board_of(&ev["a"]["pos"])) {
+                        if e["kind"] == ev["kind"] {
+                            sink.emit(&e);
+                        }
+                    }
+                }
+                "cap" => sink.emit(&misc::cap_event(&board_of(&ev["pos"]))),
+                "hashpair" => {
+                    let item = |v: &Value| -> Value {
+                        let r = proj::raw_from_json(&v["pos"]);
+                        let stored = owlchess::Board::try_from(r).ok().filter(|b| *b.raw() == r).map(|b| proj::hex(b.zobrist_hash())).unwrap_or_default();
+                        json!({"pos": v["pos"], "scratch": proj::hex(r.zobrist_hash()), "stored": if v["stored"] == "" { String::new() } else { stored }})
+                    };
+                    sink.emit(&json!({"ev": "hashpair", "kind": ev["kind"], "a": item(&ev["a"]), "b": item(&ev["b"])}));
+                }
+                _ => {
+                    // magic: recompute the attack sets for the recorded occupancies
+                    let sq = owlchess::Coord::from_index(ev["sq"].as_u64().unwrap() as usize);
+                    let rook = ev["piece"] == "rook";
+                    let entries: Vec<Value> = ev["entries"].as_array().unwrap().iter().map(|en| {
+                        let mut occ = owlchess::Bitboard::EMPTY;
+                        for s in en[0].as_array().unwrap() {
+                            occ.set(owlchess::Coord::from_index(s.as_u64().unwrap() as usize));
+                        }
+                        let att = if rook { owlchess::verif_hooks::attack_rook(sq, occ) } else { owlchess::verif_hooks::attack_bishop(sq, occ) };
+                        json!([en[0], proj::bb_json(att)])
+                    }).collect();
+                    sink.emit(&json!({"ev": "magic", "piece": ev["piece"], "sq": ev["sq"], "entries": entries}));
+                }
+            }
+        }
+        Some("leapers") => sink.emit(&misc::leaper_event()),
+        Some("between") => sink.emit(&misc::between_event(ev["src"].as_u64().unwrap() as usize)),
+        Some("ucilist") => {
+            for e in chain::ucilist_sweep(121) {
+                if e["first"] == ev["first"] && e["second"] == ev["second"] {
+                    sink.emit(&e);
+                }
+            }
+        }
+        Some(k) if k.starts_with("t_") || k.starts_with("bb_") => {
+            // deterministic blocks of C20: regenerate all of them
+            let mut rng = StdRng::seed_from_u64(1);
+            for e in misc::type_events() {
+                sink.emit(&e);
+            }
+            sink.emit(&misc::consts_event());
+            sink.emit(&misc::outcomes_event());
+            sink.emit(&misc::geometry_event());
+            for e in misc::bitboard_events(&mut rng) {
+                sink.emit(&e);
+            }
+            for e in misc::iter_events(&mut rng) {
+                sink.emit(&e);
+            }
+        }
         _ => {
             if let Some(sess) = rep["session"].as_array() {
                 sink.begin(&json!({"prop": prop, "session": "replay"}));
@@ -575,6 +662,7 @@ fn gen_misc(prop: &str, n: usize, rng: &mut StdRng, sink: &mut Sink) {
                 sink.emit(&ev);
             }
             sink.emit(&misc::consts_event());
+            sink.emit(&misc::outcomes_event());
             sink.emit(&misc::geometry_event());
             for ev in misc::bitboard_events(rng) {
                 sink.emit(&ev);
